@@ -1,13 +1,24 @@
 """C40 - interruption records are complete and uniquely numbered.
 
-Carriers: bluesky/bundlers.py: RunBundler.open_run, record_interruption, rewind, close_run; the three call sites in
-bluesky/run_engine.py (_request_pause_coro, resume, _start_suspender).
-Clauses: recording enabled and run open => record_interruption emits exactly one event in the 'interruptions' stream
-carrying the stream's next seq_num (own number, also across a rewind); otherwise nothing is emitted; with recording
-disabled open_run creates no 'interruptions' descriptor; the RunStop counts them; every pause / resume / suspension
-calls record_interruption exactly once per open run (structural obligation on the call sites).
+Carriers: bluesky/bundlers.py: RunBundler.open_run, record_interruption, rewind, close_run, monitor, _describe_collect (+ _prepare_stream,
+_ensure_cached); bluesky/run_engine.py: request_pause / _request_pause_coro, _pause, _checkpoint, resume, _rewind, request_suspend,
+_start_suspender, _run, _open_run, _close_run (and the rest of the lifecycle code the T2 harness executes).
+
+Clauses, from the statement:
+  B1  (bundler) recording enabled and run open: record_interruption emits exactly one event in the 'interruptions' stream carrying the
+      stream's next seq_num - for an arbitrary number of earlier records, with or without a checkpoint since the stream was made, with or
+      without a bundle open, across a rewind (own number: a record is never renumbered), and it does not raise; with recording disabled nothing
+      is emitted and open_run creates no 'interruptions' descriptor; the RunStop counts the records
+  B2  (bundler, frame) the 'interruptions' stream stays registered as never replayed while other never-replayed streams are registered
+      (monitor, classic flyers' describe_collect executed; the remaining writers of the registry checked structurally: it is only ever grown)
+  E1  (engine, over arbitrary plans and schedules - replay/c40_clause.py) every pause (the engine enters 'pausing'), resume (it leaves 'paused'
+      for 'running') and suspension (a '_start_suspender' message is executed) that happens while a run is open is recorded in that run - in
+      every open run, with the suspension's justification - by the time the engine goes on, and
+  E2  a run holds no other record: none twice, none for a pause that was only asked for (deferred), none for a suspension that was only
+      requested, none in a run that is not open; at close_run (where the RunStop counts the stream) and when the blocking call returns
+      the records of a run are exactly the interruptions that happened while it was open
+  E3  a run records interruptions iff the engine's record_interruptions is set when it is opened
 """
-import ast
 import itertools
 import os
 
@@ -17,8 +28,8 @@ from .bundler_lib import *
 PROP = "C40"
 Q = f"{MB}:RunBundler"
 RE = "bluesky.run_engine:RunEngine"
-TRUSTED = EM_ASSUMPTIONS
-NOT_DECIDED = "that every pause/suspension/resume path of the RunEngine reaches the call sites (T2: C08, C11)"
+NOT_DECIDED = ("Pausable devices (their pause() / resume() hooks are not modelled); SIGINT handling; collect paths other than a classic flyer's "
+               "_describe_collect are covered for B2 by the structural frame obligation only; wall-clock timestamps of the records")
 
 
 @task("open_run", PROP, functions=[f"{Q}.open_run", f"{Q}.__init__"],
@@ -100,6 +111,8 @@ def record_interruption(I):
         b._sequence_counters_copy["interruptions"] = c
     else:
         b._sequence_counters_copy.pop("interruptions", None)
+    # the interruption may land between a 'create' and its 'save' (the rewind cancels the open bundle)
+    info["bundling"] = b.attrs["bundling"] = w.choose([False, True], "bundle open")
     env.emitted.clear()
     r1 = catch(I, I.getattr(b, "record_interruption"), "pause")
     call_method(I, b, "rewind")                           # resume: the record must not be renumbered
@@ -115,29 +128,60 @@ def record_interruption(I):
     w.check(REC_STOP, And(r[0] == "ok" and len(stops) == 1 and cnt is not None, Eq(cnt, n + 1) if cnt is not None else False), info)
 
 
-@task("call_sites", PROP, functions=[f"{RE}._request_pause_coro", f"{RE}.resume", f"{RE}._start_suspender"],
-      expect=[f"{RE}#ensures[pause, resume and suspension each record one interruption per open run]"])
-def call_sites(I):
+FRAME_ALL = f"{Q}#frame[structural: the registry of never-replayed streams is created in __init__ and afterwards only grown (add) or read]"
+
+
+@task("never_replayed.frame", PROP, functions=[Q], expect=[FRAME_ALL])
+def never_replayed_frame(I):
+    """B2 for the writers the task above does not execute (collect's tails ...): every use of `_unreplayed_streams` in RunBundler is the
+    initialisation in __init__, a call of .add, or a read (membership test, iteration, set algebra on the right-hand side)"""
+    import ast
+    m, chain, node = I.P.find_function(Q)
+    parents = {}
+    for n in ast.walk(node):
+        for ch in ast.iter_child_nodes(n):
+            parents[ch] = n
+
+    def func_of(n):
+        while n in parents:
+            n = parents[n]
+            if isinstance(n, (ast.FunctionDef, ast.AsyncFunctionDef)):
+                return n.name
+        return None
+    bad, uses = [], 0
+    for n in ast.walk(node):
+        if isinstance(n, ast.Attribute) and n.attr == "_unreplayed_streams":
+            uses += 1
+            p = parents.get(n)
+            if isinstance(n.ctx, (ast.Store, ast.Del)):
+                ok = func_of(n) == "__init__" and isinstance(p, (ast.Assign, ast.AnnAssign)) and ast.unparse(p.value) == "set()"
+            elif isinstance(p, ast.Attribute):            # a method of the set: only add
+                ok = p.attr == "add" and isinstance(parents.get(p), ast.Call) and parents[p].func is p
+            elif isinstance(p, ast.AugAssign):
+                ok = False                                 # (`|=` would do, but `-=` / `&=` shrink it: none of them is used)
+            else:                                         # a read: comparison operand, iteration, operand of a set expression, argument
+                ok = isinstance(p, (ast.Compare, ast.comprehension, ast.BinOp, ast.For, ast.Call))
+                if isinstance(p, ast.Call):
+                    ok = isinstance(p.func, ast.Name) and p.func.id in ("set", "frozenset", "sorted", "list", "len", "tuple")
+            if not ok:
+                bad.append((func_of(n), n.lineno))
+    I.w.check(FRAME_ALL, uses > 0 and not bad, {"bad": bad})
+
+
+@task("twin.renumbered", PROP, functions=[f"{Q}.record_interruption", f"{Q}.rewind"], twin="twin:a rewind takes the interruption numbering back to the checkpoint")
+def twin_renumbered(I):
     w = I.w
-    want = {"_request_pause_coro": '"pause"', "resume": '"resume"', "_start_suspender": None}
-    ok = True
-    for fn, label in want.items():
-        m, chain, node = I.P.find_function(f"{RE}.{fn}")
-        loops = [n for n in ast.walk(node) if isinstance(n, ast.For) and ast.unparse(n.iter) == "self._run_bundlers.values()"]
-        hits = []
-        for lp in loops:
-            calls = [c for c in ast.walk(lp) if isinstance(c, ast.Call) and ast.unparse(c.func).endswith(".record_interruption")]
-            # exactly one unconditional call per iteration (other statements in the loop body are allowed)
-            top_level = [st for st in lp.body if isinstance(st, ast.Expr) and isinstance(st.value, ast.Call)
-                         and ast.unparse(st.value.func) == f"{ast.unparse(lp.target)}.record_interruption"]
-            if len(calls) == 1 and len(top_level) == 1 and top_level[0].value is calls[0]:
-                hits.append(calls[0])
-        total = [c for c in ast.walk(node) if isinstance(c, ast.Call) and ast.unparse(c.func).endswith(".record_interruption")]
-        good = len(hits) == 1 and len(total) == 1
-        if good and label is not None:
-            good = ast.unparse(hits[0].args[0]).replace("'", '"') == label
-        ok = ok and good
-    w.check(f"{RE}#ensures[pause, resume and suspension each record one interruption per open run]", ok)
+    env = Env(I)
+    b, uid = opened_bundler(I, env, record_interruptions=True)
+    n, c = w.int("next_interruptions"), w.int("snap_interruptions")
+    w.add(And(n >= 1, c >= 1, c <= n))
+    b._sequence_counters["interruptions"], b._sequence_counters_copy["interruptions"] = n, c
+    env.emitted.clear()
+    call_method(I, b, "record_interruption", "pause")
+    call_method(I, b, "rewind")
+    call_method(I, b, "record_interruption", "resume")
+    evs = events(env)
+    w.check("twin:a rewind takes the interruption numbering back to the checkpoint", And(len(evs) == 2, Eq(evs[1]["seq_num"], c) if len(evs) == 2 else False))
 
 
 # ---------------------------------------------------------------------------------------------------------------------------------
@@ -147,6 +191,14 @@ def call_sites(I):
 from .t2 import *                                   # noqa: E402
 from .run_mon5 import c40_checks, R_MISSING, R_EXTRA, R_FLAG      # noqa: E402
 
+TRUSTED = EM_ASSUMPTIONS + TRUSTED_T2 + [
+    "A-ENV: in each T2 scenario another thread makes at most `max_requests` (2; 3 in one thorough scenario) pause / suspension requests per call, at most "
+    "`max_inflight` of them in flight at a time, none while `max_depth` or more plans are stacked; a plan opens at most two runs; the plan's alphabet and "
+    "the decisions at the prompt of a paused engine are those of the scenario (listed in the task names)",
+    "the abstract run bundler of the T2 tasks stands for RunBundler under B1 / B2: each record_interruption call on an open recording run is one event "
+    "of its 'interruptions' stream with its own seq_num, counted by the RunStop",
+    "E1 / E2 use the definitions of replay/c40_clause.py for when an interruption happens and by when its record is due",
+]
 THOROUGH = os.environ.get("VERIF_TIER") == "thorough"
 REC = {"re_attrs": {"record_interruptions": True}}
 # most scenarios: a plan that neither raises nor catches what is thrown into it, and resume / abort as the decisions at the prompt of a
@@ -192,3 +244,21 @@ if THOROUGH:
     ]
 for _m, _e, _o, _c in T2_SCENARIOS:
     t2_tasks(PROP, "interruptions", [(_m, _e, _o)], [c40_checks], expect=[R_FLAG] + ([R_MISSING, R_EXTRA] if _o.get("re_attrs") else []), covers=_c)
+
+
+
+def _twin(sc, tr):
+    n = {"asked": 0, "recorded": 0}
+
+    def check(kind, *a):
+        if kind == "request" and a[0] in ("pause", "pause_defer"):
+            n["asked"] += 1
+        elif kind == "record_interruption" and a[1] == "pause":
+            n["recorded"] += 1
+        elif kind == "returned" and a[0] == "__call__" and sc.eng.state == "idle":
+            sc.w.check("twin:every pause that was asked for is recorded, deferred ones included", n["recorded"] >= n["asked"])
+    tr.checks.append(check)
+
+
+t2_tasks(PROP, "twin", [("open_run,checkpoint", "pause_defer", dict(REC, max_requests=1, can_raise=False, handles=False))], [_twin],
+         twin="twin:every pause that was asked for is recorded, deferred ones included")
